@@ -20,6 +20,13 @@ def compile_cpp(src: Path, out: Path, san: str = 'asan+ubsan', extra: List[str] 
     else:
         flags += ['-O1']
     p = subprocess.run(['g++'] + flags + list(extra) + [str(src), '-o', str(out)], capture_output=True, text=True)
+    for retry in range(3):
+        # a compiler killed by the machine (memory pressure next to other jobs) is not a property of the code: try again
+        if p.returncode == 0 or not (p.returncode < 0 or any(k in p.stderr for k in ('Killed', 'virtual memory exhausted', 'Cannot allocate memory', 'out of memory', 'fatal error: error writing'))):
+            break
+        import time
+        time.sleep(5 + 10 * retry)
+        p = subprocess.run(['g++'] + flags + list(extra) + [str(src), '-o', str(out)], capture_output=True, text=True)
     return p.returncode == 0, p.stderr
 
 
